@@ -377,8 +377,8 @@ def run(run, tier, seed, replay_case=None):
 
     rng = random.Random(seed * 7919 + 2)
     corpus = C.load_corpus(PROP)
-    n = 2500 if tier == "quick" else 30000
-    nh = 40 if tier == "quick" else 400
+    n = 2500 if tier == "quick" else 20000
+    nh = 40 if tier == "quick" else 300
     stage1 = list(corpus) + fixed_cases() + huge_cases()
     env = C.lib_env("asan")
     env["OMP_NUM_THREADS"] = "2"
